@@ -17,11 +17,43 @@ Proof.
   pose proof (lenN_filter_le (fun s => s <? t) (starts (durs tb) 0)) as Hf. rewrite lenN_starts in Hf. lia.
 Qed.
 
-Lemma sat_inv tb : consistent tb = true -> deltas_strict tb = true -> 1 <= nsamples tb -> forall t nr,
-  stts_get_sample_nr_at_time (t_stts_count tb) (t_stts_delta tb) t = Ok nr ->
-  t < sumN (durs tb) /\ nr = 1 + k_of tb t /\ S_sample_at_time tb t = Some nr.
+(* a track without samples: GetSampleNrAtTime never returns a sample number *)
+Lemma sum_zero_all : forall cs, sumN cs = 0 -> Forall (fun c => c = 0) cs.
+Proof. induction cs as [|c t IH]; intros H; [constructor|]. cbn [sumN] in H. constructor; [lia|apply IH; lia]. Qed.
+
+Lemma sat_loop_zero : forall cs ds t accN, Forall (fun c => c = 0) cs ->
+  sample_at_time_loop cs ds t 0 accN = Panic \/ exists a, sample_at_time_loop cs ds t 0 accN = Ok (None, 0, a).
 Proof.
-  intros H Hd HN t nr Hr. unfold deltas_strict in Hd. apply andb_prop in Hd. destruct Hd as [Hp Hl].
+  induction cs as [|c cs IH]; intros ds t accN H; [right; exists accN; reflexivity|].
+  inversion H as [|? ? Hc Ht]; subst. destruct ds as [|d ds]; [left; reflexivity|].
+  cbn [sample_at_time_loop]. rewrite N.mul_0_l, N.mul_0_r, N.add_0_r. change (u64 0) with 0.
+  destruct (t <? 0) eqn:E; [lia|]. apply IH. exact Ht.
+Qed.
+
+Lemma sat_empty_track tb t nr : consistent tb = true -> nsamples tb = 0 ->
+  stts_get_sample_nr_at_time (t_stts_count tb) (t_stts_delta tb) t = Ok nr -> False.
+Proof.
+  intros H HN Hr. destruct (stts_facts tb H) as [L [S _]]. rewrite HN in S.
+  pose proof (sum_zero_all _ S) as Hz. unfold stts_get_sample_nr_at_time in Hr.
+  destruct (sat_loop_zero (t_stts_count tb) (t_stts_delta tb) t 0 Hz) as [E|[a E]]; rewrite E in Hr; [discriminate|].
+  cbn [rbind] in Hr.
+  destruct (idx_m1 (t_stts_delta tb) (lenN (t_stts_count tb))) as [dl| | |]; try discriminate. cbn [rbind] in Hr.
+  destruct (negb (dl =? 0)); [discriminate|].
+  destruct (idx_m1 (t_stts_count tb) (lenN (t_stts_count tb))) as [cl| | |] eqn:Ec; try discriminate. cbn [rbind] in Hr.
+  unfold idx_m1 in Ec. destruct (lenN (t_stts_count tb) =? 0); [discriminate|]. unfold idx in Ec.
+  destruct (nthN (t_stts_count tb) (lenN (t_stts_count tb) - 1)) as [x|] eqn:En; [|discriminate]. injection Ec as <-.
+  apply nthN_In in En. rewrite Forall_forall in Hz. rewrite (Hz x En) in Hr. cbn in Hr. discriminate.
+Qed.
+
+Lemma sat_inv tb : consistent tb = true -> deltas_strict tb = true -> forall t nr,
+  stts_get_sample_nr_at_time (t_stts_count tb) (t_stts_delta tb) t = Ok nr ->
+  1 <= nsamples tb /\ t < sumN (durs tb) /\ nr = 1 + k_of tb t /\ S_sample_at_time tb t = Some nr.
+Proof.
+  intros H Hd t nr Hr.
+  assert (HN : 1 <= nsamples tb).
+  { destruct (N.eq_dec (nsamples tb) 0) as [E|]; [|lia]. exfalso. exact (sat_empty_track tb t nr H E Hr). }
+  split; [exact HN|].
+  unfold deltas_strict in Hd. apply andb_prop in Hd. destruct Hd as [Hp Hl].
   destruct (stts_facts tb H) as [L _].
   rewrite (sample_at_time_correct tb H Hp HN t) in Hr.
   unfold S_sample_at_time in *. destruct (t <? sumN (durs tb)) eqn:E.
@@ -30,16 +62,16 @@ Proof.
     destruct (last (durs tb) 1 =? 0) eqn:E0; [lia|]. cbn [andb] in Hr. discriminate.
 Qed.
 
-Lemma find_trak_end_inv tb ts et ets r : consistent tb = true -> deltas_strict tb = true -> 1 <= nsamples tb ->
+Lemma find_trak_end_inv tb ts et ets r : consistent tb = true -> deltas_strict tb = true ->
   find_trak_end tb ts et ets = Ok r ->
   exists tet, (if negb (ts =? u32 ets) then div_go (u64 (et * ts)) ets else Ok et) = Ok tet /\
               tet < sumN (durs tb) /\ 1 <= k_of tb tet.
 Proof.
-  intros H Hd HN Hr. unfold find_trak_end in Hr.
+  intros H Hd Hr. unfold find_trak_end in Hr.
   destruct (if negb (ts =? u32 ets) then div_go (u64 (et * ts)) ets else Ok et) as [tet| | |] eqn:Et; try discriminate.
   cbn [rbind] in Hr.
   destruct (stts_get_sample_nr_at_time (t_stts_count tb) (t_stts_delta tb) tet) as [nr| | |] eqn:En; try discriminate.
-  cbn [rbind] in Hr. destruct (sat_inv tb H Hd HN tet nr En) as [A [B _]].
+  cbn [rbind] in Hr. destruct (sat_inv tb H Hd tet nr En) as [_ [A [B _]]].
   exists tet. split; [reflexivity|]. split; [exact A|].
   destruct (k_of_le tb tet H) as [K1 K2]. subst nr. rewrite sub32_small in Hr by lia.
   destruct (1 + k_of tb tet - 1 =? 0) eqn:E0; [discriminate|]. lia.
@@ -47,19 +79,18 @@ Qed.
 
 (* ---------- the input: what is assumed of every track ---------- *)
 Definition trak_wf (file : list N) (t : trak_in) : Prop :=
-  static_ok file (mkTS (ti_id t) (ti_tb t) 0 0 1 []) /\ deltas_strict (ti_tb t) = true /\ 1 <= nsamples (ti_tb t) /\
-  ti_ts t < 4294967296.
+  static_ok file (mkTS (ti_id t) (ti_tb t) 0 0 1 []) /\ deltas_strict (ti_tb t) = true /\ ti_ts t < 4294967296.
 
 Lemma trak_ends_pre file : forall traks et ets ts0, Forall (trak_wf file) traks -> trak_ends traks et ets = Ok ts0 ->
   Forall (trak_pre file et ets) traks.
 Proof.
   induction traks as [|t r IH]; intros et ets ts0 Hwf H; [constructor|].
-  inversion Hwf as [|? ? [Hst [Hd [HN Hts]]] Hwf']; subst. cbn [trak_ends] in H.
+  inversion Hwf as [|? ? [Hst [Hd Hts]] Hwf']; subst. cbn [trak_ends] in H.
   destruct (find_trak_end (ti_tb t) (ti_ts t) et ets) as [e| | |] eqn:Ee; try discriminate. cbn [rbind] in H.
   destruct (trak_ends r et ets) as [r'| | |] eqn:Er; try discriminate.
   constructor; [|eapply IH; eauto].
   pose proof Hst as [Hc _]. cbn [ts_tb] in Hc.
-  destruct (find_trak_end_inv (ti_tb t) (ti_ts t) et ets e Hc Hd HN Ee) as [tet [A [B C]]].
+  destruct (find_trak_end_inv (ti_tb t) (ti_ts t) et ets e Hc Hd Ee) as [tet [A [B C]]].
   unfold trak_pre. split; [exact Hst|]. split.
   - unfold deltas_strict in Hd. apply andb_prop in Hd. tauto.
   - exists tet. unfold track_tet. split; [exact A|]. split; assumption.
@@ -197,16 +228,16 @@ Proof.
   pose proof (starts_lt_iff r (durs tb) 0 (j - 1) s H). lia.
 Qed.
 
-Lemma find_end_time_inv tb ts ms et : consistent tb = true -> deltas_strict tb = true -> 1 <= nsamples tb ->
+Lemma find_end_time_inv tb ts ms et : consistent tb = true -> deltas_strict tb = true ->
   find_end_time tb ts ms = Ok et ->
   u64 (ms * ts) / 1000 < sumN (durs tb) /\
   (first_sync_from tb (u64 (ms * ts) / 1000) et \/ (t_stss tb = None /\ et = sumN (durs tb))).
 Proof.
-  intros H Hd HN Hr. set (r := u64 (ms * ts) / 1000) in *.
+  intros H Hd Hr. set (r := u64 (ms * ts) / 1000) in *.
   pose proof Hd as Hd'. unfold deltas_strict in Hd'. apply andb_prop in Hd'. destruct Hd' as [Hp _].
   destruct (stts_get_sample_nr_at_time (t_stts_count tb) (t_stts_delta tb) r) as [lastNr| | |] eqn:En;
     try (unfold find_end_time in Hr; fold r in Hr; rewrite En in Hr; discriminate).
-  destruct (sat_inv tb H Hd HN r lastNr En) as [Hlt [Hk Hsat]]. split; [exact Hlt|].
+  destruct (sat_inv tb H Hd r lastNr En) as [HN [Hlt [Hk Hsat]]]. split; [exact Hlt|].
   destruct (k_of_le tb r H) as [K1 K2].
   destruct (stts_facts tb H) as [_ [_ [_ [_ LD]]]].
   destruct (t_stss tb) as [l|] eqn:Hl.
@@ -280,12 +311,12 @@ Proof.
   exists ref. split; [exact Hch|]. split; [reflexivity|]. split; [exact Eswm|].
   (* the reference track is one of the tracks: its own end time lies inside it *)
   assert (Hrefwf : trak_wf file ref) by (rewrite Forall_forall in Hwf; apply Hwf, Hin).
-  destruct Hrefwf as [Hst [Hd [HN Hts]]]. pose proof Hst as [Hc _]. cbn [ts_tb] in Hc.
+  destruct Hrefwf as [Hst [Hd Hts]]. pose proof Hst as [Hc _]. cbn [ts_tb] in Hc.
   assert (Hetlt : et0 < sumN (durs (ti_tb ref))).
   { rewrite Forall_forall in Hpre'. destruct (Hpre' ref Hin) as [_ [_ [tet [A [B _]]]]].
     unfold track_tet in A. rewrite (u32_small (ti_ts ref)) in A by lia. rewrite N.eqb_refl in A. cbn [negb] in A.
     injection A as <-. exact B. }
-  destruct (find_end_time_inv (ti_tb ref) (ti_ts ref) ms et0 Hc Hd HN Eet) as [_ [Hfs|[_ Heq]]]; [|lia].
+  destruct (find_end_time_inv (ti_tb ref) (ti_ts ref) ms et0 Hc Hd Eet) as [_ [Hfs|[_ Heq]]]; [|lia].
   split; [exact Hfs|].
   rewrite Eswm in Hct.
   destruct (crop_to_time_full file traks et0 (ti_ts ref) (lenN pre) pre hdr sh rg ks0 Hpre' HB eq_refl Hhdr HB2 Hct)
@@ -576,4 +607,149 @@ Proof.
   intros Hwf Hd HB Hb Hrun Hin Hpre HB2 Hout.
   apply (crop_end_to_end_gen file zeof (C08Model.mdat_mem file startPos large payloadLen) hs ms rest pre et ets shifted ranges ks swm outf Hwf Hd HB Hrun Hpre HB2); [|exact Hout].
   intros _ Hlt. exact (write_mdat_mem_inv file zeof startPos large payloadLen ranges Hb Hin Hlt).
+Qed.
+
+(* ---------- in-memory mode from hypotheses on the INPUT only: every byte range starts at a chunk offset ---------- *)
+(* Stco/Co64.GetOffset as fillTrakOutsAndByteRanges calls it *)
+Definition tb_off (tb : tables) (c : N) : res N :=
+  match t_stco tb with
+  | Some l => get_offset l c
+  | None => match t_co64 tb with Some l => get_offset l c | None => Panic end
+  end.
+Definition off_of (tbs : list tables) (s : N) : Prop := exists tb c, In tb tbs /\ tb_off tb c = Ok s.
+
+Lemma pick_min_src : forall ts i best r, pick_min ts i best = Ok r ->
+  r = best \/ off_of (map ts_tb ts) (fst (fst r)).
+Proof.
+  induction ts as [|t rest IH]; intros i best r H; cbn [pick_min] in H; [injection H as <-; left; reflexivity|].
+  assert (Hw : forall r0, r0 = best \/ off_of (map ts_tb rest) (fst (fst r0)) ->
+                          r0 = best \/ off_of (map ts_tb (t :: rest)) (fst (fst r0))).
+  { intros r0 [A|[tb [c [A B]]]]; [left; exact A|right; exists tb, c; split; [right; exact A|exact B]]. }
+  destruct (ts_last_chunk t <? ts_next t); [apply Hw, (IH _ _ _ H)|].
+  fold (tb_off (ts_tb t) (ts_next t)) in H.
+  destruct (tb_off (ts_tb t) (ts_next t)) as [off| | |] eqn:Eo; try discriminate. cbn [rbind] in H.
+  destruct (off <? fst (fst best)).
+  - destruct (IH _ _ _ H) as [A|A]; [|apply Hw; right; exact A].
+    right. subst r. cbn [fst]. exists (ts_tb t), (ts_next t). split; [left; reflexivity|exact Eo].
+  - apply Hw, (IH _ _ _ H).
+Qed.
+
+Lemma upd_ts_tbs f : (forall t, ts_tb (f t) = ts_tb t) -> forall ts i, map ts_tb (upd_ts ts i f) = map ts_tb ts.
+Proof.
+  intros Hf. induction ts as [|t r IH]; intros i; [reflexivity|]. cbn [upd_ts]. destruct (i =? 0); cbn [map].
+  - rewrite Hf. reflexivity.
+  - rewrite IH. reflexivity.
+Qed.
+
+Lemma add_range_starts (Q : N -> Prop) rs s e : Forall (fun r => Q (fst r)) rs -> Q s ->
+  Forall (fun r => Q (fst r)) (add_range rs s e).
+Proof.
+  intros H Hs. unfold add_range. destruct rs as [|[s0 e0] t]; [constructor; [exact Hs|constructor]|].
+  inversion H as [|? ? H0 Ht]; subst. destruct (u64 (e0 + 1) =? s); constructor; try assumption.
+Qed.
+
+Lemma fill_loop_starts tbs : forall fuel ts rs fo cur ts' ranges f', map ts_tb ts = tbs ->
+  Forall (fun r => off_of tbs (fst r)) rs -> fill_loop fuel ts rs fo cur = Ok (ts', ranges, f') ->
+  Forall (fun r => off_of tbs (fst r)) ranges.
+Proof.
+  induction fuel as [|fuel IH]; intros ts rs fo cur ts' ranges f' Htb Hrs H; [discriminate|].
+  cbn [fill_loop] in H.
+  destruct (pick_min ts 0 (4611686018427387904, 0, 0)) as [[[minOff idMin] iMin]| | |] eqn:Ep; try discriminate.
+  cbn [rbind] in H. destruct (idMin =? 0) eqn:Eid.
+  - injection H as <- <- <-. apply Forall_rev. exact Hrs.
+  - assert (HQ : off_of tbs minOff).
+    { destruct (pick_min_src _ _ _ _ Ep) as [A|A]; [injection A as _ A _; lia|]. rewrite Htb in A. exact A. }
+    destruct (fo =? 0); cbv beta iota in H;
+      (destruct (idx ts iMin) as [t| | |]; try discriminate; cbn [rbind] in H;
+       destruct (stsc_get_chunk (sc_entries (t_stsc (ts_tb t))) (ts_next t)) as [ch| | |]; try discriminate; cbn [rbind] in H;
+       destruct (stsz_get_total_sample_size (t_stsz (ts_tb t)) (ch_start ch)
+                   (N.min (sub32 (u32 (ch_start ch + ch_n ch)) 1) (ts_last_sample t))) as [sz| | |]; try discriminate;
+       cbn [rbind] in H;
+       (refine (IH _ _ _ _ _ _ _ _ _ H);
+        [rewrite upd_ts_tbs; [exact Htb|reflexivity]|apply add_range_starts; [exact Hrs|exact HQ]])).
+Qed.
+
+Lemma crop_range_starts hs ms rest et ets shifted ranges ks swm :
+  crop_mp4_file hs ms rest = Ok (et, ets, (shifted, ranges, ks, swm)) ->
+  Forall (fun r => off_of (map ti_tb (map th_trak hs)) (fst r)) ranges.
+Proof.
+  unfold crop_mp4_file. intros H. destruct (find_sync_trak hs) as [rf|]; [|discriminate].
+  destruct (find_end_time (ti_tb rf) (ti_ts rf) ms) as [et0| | |]; try discriminate. cbn [rbind] in H.
+  destruct (crop_to_time_sz (map th_trak hs) et0 (ti_ts rf) rest) as [[[[sh rg] ks0] swm0]| | |] eqn:Ec; try discriminate.
+  cbn [rbind] in H. injection H as <- <- <- <- <- <-.
+  unfold crop_to_time_sz in Ec.
+  destruct (trak_ends (map th_trak hs) et0 (ti_ts rf)) as [ts0| | |] eqn:Ends; try discriminate. cbn [rbind] in Ec.
+  destruct (trak_ends_init _ _ _ _ Ends) as [_ [Htb _]].
+  destruct (fill_loop (fill_fuel ts0) ts0 [] 0 0) as [[[ts' rg'] first]| | |] eqn:Ef; try discriminate. cbn [rbind] in Ec.
+  destruct (crop_all ts') as [cropped| | |]; try discriminate. cbn [rbind] in Ec.
+  destruct (update_chunk_offsets (size_without_mdat rest cropped) first cropped) as [sh'| | |]; try discriminate.
+  cbn [rbind] in Ec. injection Ec as <- <- <- <-.
+  exact (fill_loop_starts _ _ ts0 [] 0 0 ts' rg' first Htb (Forall_nil _) Ef).
+Qed.
+
+(* static_ok does not depend on the bytes beyond the end of the chunks *)
+Lemma trak_wf_mono file file' t : lenN file' <= lenN file -> trak_wf file' t -> trak_wf file t.
+Proof.
+  intros Hl [[A [B [C [D E]]]] R]. split; [|exact R]. split; [exact A|]. split; [exact B|]. split; [exact C|]. split; [exact D|].
+  intros c o cnt H1 H2. specialize (E c o cnt H1 H2). lia.
+Qed.
+
+(* every chunk of every track starts inside the input mdat's payload [lo, hi) and ends inside it (the file cut at hi still
+   holds every chunk): then so does every byte range *)
+Definition chunks_in_payload (file : list N) (lo hi : N) (t : trak_in) : Prop :=
+  trak_wf (firstn (N.to_nat hi) file) t /\ forall c o, tb_off (ti_tb t) c = Ok o -> lo <= o < hi.
+
+Lemma lenN_firstn_le {A} (l : list A) n : lenN (firstn (N.to_nat n) l) <= n /\ lenN (firstn (N.to_nat n) l) <= lenN l.
+Proof. unfold lenN. rewrite firstn_length. lia. Qed.
+
+Lemma crop_end_to_end_mem_input file zeof startPos large payloadLen hs ms rest pre et ets shifted ranges ks swm outf :
+  Forall (chunks_in_payload file (startPos + C08Spec.hdr_len large) (startPos + C08Spec.hdr_len large + payloadLen))
+         (map th_trak hs) ->
+  distinct_ids hs ->
+  4611686018427387904 + 2 * total_bytes (map th_trak hs) < 18446744073709551616 ->
+  C08Spec.box_in_file file startPos large payloadLen = true ->
+  crop_mp4_file hs ms rest = Ok (et, ets, (shifted, ranges, ks, swm)) ->
+  lenN pre = rest + sumN (map stbl_var_size shifted) ->
+  lenN pre + mdat_out_hdr + 2 * total_bytes (map th_trak hs) < 18446744073709551616 ->
+  crop_mp4_output file zeof (C08Model.mdat_mem file startPos large payloadLen) pre ranges = Ok outf ->
+  exists ref hdr, ref_choice hs ref /\ ets = ti_ts ref /\ swm = lenN pre /\
+    first_sync_from (ti_tb ref) (u64 (ms * ti_ts ref) / 1000) et /\
+    outf = pre ++ hdr ++ out_bytes file ranges /\
+    hdr = C08Model.be32 (lenN (out_bytes file ranges) + 8) ++ C08Model.name_mdat /\
+    lenN (out_bytes file ranges) + 8 < 4294967296 /\
+    Forall2 (out_track file outf (lenN pre) (lenN (out_bytes file ranges)) et ets) (map th_trak hs) shifted.
+Proof.
+  intros Hin Hd HB Hb Hrun Hpre HB2 Hout.
+  set (lo := startPos + C08Spec.hdr_len large) in *. set (hi := lo + payloadLen) in *.
+  set (file' := firstn (N.to_nat hi) file).
+  destruct (lenN_firstn_le file hi) as [L1 L2]. fold file' in L1, L2.
+  assert (Hwf' : Forall (trak_wf file') (map th_trak hs)).
+  { revert Hin. apply Forall_impl. intros t [A _]. exact A. }
+  assert (Hwf : Forall (trak_wf file) (map th_trak hs)).
+  { revert Hwf'. apply Forall_impl. intros t. apply trak_wf_mono. exact L2. }
+  (* the byte ranges end inside the payload ... *)
+  destruct (crop_mp4_file_correct file' hs ms rest pre (repeat 0 8) et ets shifted ranges ks swm Hwf' HB Hrun Hpre eq_refl HB2)
+    as [_ [_ [_ [_ [_ [Hr' _]]]]]].
+  (* ... and start inside it *)
+  pose proof (crop_range_starts hs ms rest et ets shifted ranges ks swm Hrun) as Hs.
+  apply (crop_end_to_end_mem file zeof startPos large payloadLen hs ms rest pre et ets shifted ranges ks swm outf
+           Hwf Hd HB Hb Hrun); try assumption.
+  rewrite Forall_forall in *. intros r Hr. specialize (Hr' r Hr). specialize (Hs r Hr).
+  destruct Hs as [tb [c [Htb Ho]]]. apply in_map_iff in Htb. destruct Htb as [t [Et Ht]]. subst tb.
+  destruct (Hin t Ht) as [_ Hc]. specialize (Hc c (fst r) Ho).
+  unfold range_in in Hr'. unfold range_in_mdat. fold lo. fold hi. lia.
+Qed.
+
+(* ---------- cropMP4 including writeUptoMdat's durations ---------- *)
+Lemma crop_mp4_all_ok hs mvts tks ms rest et ets x nd tks' :
+  crop_mp4_all hs mvts tks ms rest = Ok (et, ets, x, (nd, tks')) ->
+  crop_mp4_file hs ms rest = Ok (et, ets, x) /\
+  Forall2 (fun old new => tk_dur new = nd /\ nd <= tk_dur old /\ md_dur new = md_dur old /\ elst_le (tk_elst new) (tk_elst old))
+          tks tks' /\
+  (forall mv, (exists t, In t tks /\ tk_dur t <= mv) -> nd <= mv).
+Proof.
+  unfold crop_mp4_all. intros H. destruct (crop_mp4_file hs ms rest) as [[[et0 ets0] x0]| | |]; try discriminate.
+  cbn [rbind] in H. destruct (write_upto_mdat_durs et0 ets0 mvts tks) as [[nd0 tk0]| | |] eqn:Ed; try discriminate.
+  cbn [rbind] in H. injection H as <- <- <- <- <-. split; [reflexivity|].
+  exact (header_durations et0 ets0 mvts tks nd0 tk0 Ed).
 Qed.
